@@ -18,8 +18,12 @@ where
     T: Hash + Eq,
 {
     /// Create a new timer set.
+    ///
+    /// The set iterates in an order that depends only on its contents (fixed hasher keys, as for
+    /// the networks), so that the order in which a model offers `Timeout` actions — and with it a
+    /// simulation run for a given seed — is reproducible.
     pub fn new() -> Self {
-        Self(HashableHashSet::new())
+        Self(HashableHashSet::with_hasher(crate::stable::build_hasher()))
     }
 
     /// Set a timer.
